@@ -645,6 +645,11 @@ class CCA(CCABaseModel):
             Input data to transform
 
         """
+        if len(views) != self.n_views_:
+            raise ValueError(
+                f"Invalid input. Number of views ({len(views)}) does not match the number of fitted views ({self.n_views_})."
+            )
+
         view_preprocessed = []
         for i, view in enumerate(views):
             view_preprocessed.append(self.preprocessors[i].transform(view))
